@@ -6,6 +6,7 @@ import (
 	"time"
 
 	"github.com/form3tech-oss/f1/v2/internal/trigger/api"
+	"github.com/form3tech-oss/f1/v2/internal/trigger/file"
 )
 
 // C12 traces of the REAL api.NewDistribution with a scripted underlying rate function and a
@@ -26,6 +27,7 @@ type c12trace struct {
 	Rates    []int   `json:"rates"`
 	Err      string  `json:"err,omitempty"`
 	Panicked bool    `json:"panicked"`
+	NoEvals  bool    `json:"noevals"` // the underlying rate function is f1's own (config-file traces): its evaluations are not visible
 	Ev       []c12ev `json:"ev"`
 }
 
@@ -107,6 +109,47 @@ func runC12(c *ctx, dist string, in time.Duration, rates []int, draws []int, cal
 			// more than one evaluation inside one call: record each as its own (zero-length) event is not
 			// possible; log the count so the spec rejects it
 			tr.Ev[len(tr.Ev)-1].Evals = evals
+		}
+	}
+	return tr
+}
+
+// runC12File: the same through the config-file front end - a staged stage with a flat profile of `rate` per
+// `freq`, spread by `dist`; the tick interval and the rate function are the ones the PARSED STAGE carries (what the
+// stage runner will use): the interval must be the 100 ms sub-tick and every cycle of freq/100ms calls hands out `rate`
+func runC12File(dist string, freq time.Duration, rate, cycles int) (tr c12trace) {
+	tr = c12trace{Dist: dist, InMs: freq.Milliseconds(), Frac: frac(freq), Rates: []int{rate}, NoEvals: true, Ev: []c12ev{}}
+	defer func() {
+		if r := recover(); r != nil {
+			tr.Panicked = true
+			tr.Err = fmt.Sprint(r)
+		}
+	}()
+	y := fmt.Sprintf("scenario: scn\nlimits:\n  max-duration: 1h\n  concurrency: 4\n  max-iterations: 0\n  ignore-dropped: true\n"+
+		"default:\n  jitter: 0\nstages:\n- mode: staged\n  duration: 1h\n  stages: 0s:%d,1h:%d\n  iteration-frequency: %s\n  distribution: %s\n", rate, rate, freq, dist)
+	now := time.Date(2030, 1, 2, 3, 4, 0, 0, time.UTC)
+	rs, err := file.ParseConfigFile([]byte(y), now)
+	if err != nil || len(rs.Stages) != 1 || rs.Stages[0].Rate == nil {
+		tr.Err, tr.Panicked = fmt.Sprint("config not accepted: ", err), true
+		return tr
+	}
+	st := rs.Stages[0]
+	tr.OutMs, tr.OutFrac = st.IterationDuration.Milliseconds(), frac(st.IterationDuration)
+	n := 1
+	if dist != "none" && freq > 100*time.Millisecond {
+		n = int(freq.Milliseconds() / 100)
+	}
+	at := now
+	for cy := 0; cy < cycles; cy++ {
+		for k := 0; k < n; k++ {
+			out := st.Rate(at)
+			at = at.Add(st.IterationDuration)
+			m := len(tr.Ev)
+			if k > 0 && tr.Ev[m-1].Out == out {
+				tr.Ev[m-1].Rep++
+			} else {
+				tr.Ev = append(tr.Ev, c12ev{Out: out, Rep: 1, Evals: 0, Rate: rate})
+			}
 		}
 	}
 	return tr
@@ -209,6 +252,12 @@ func init() {
 				d = "random"
 			}
 			w.write(runC12(c, d, in, rates, nil, 3*n))
+		}
+		// through the config-file front end
+		for _, dist := range []string{"regular", "random", "none"} {
+			for _, fr := range []time.Duration{time.Second, 500 * ms, 300 * ms, 100 * ms, 2 * time.Second} {
+				w.write(runC12File(dist, fr, []int{1, 7, 20, 113}[c.rng.Intn(4)], 6))
+			}
 		}
 		fmt.Println("c12 traces:", w.n)
 		return nil
